@@ -58,7 +58,7 @@ def check(ctx, rep, prop):
     n = 0
     for d, adt, f, g, fields, where in sites(ctx):
         key = ctx.user_fn_of(d)
-        if not any(key.lstrip('<').startswith(p) or adt.startswith(p) for p in pre):
+        if not (argsel.in_scope(ctx, key, prop) or any(adt.startswith(p) for p in pre)):
             continue
         n += 1
         bad = g != f and g in fields and (adt.split('::')[-1], f, g) not in ALLOW
